@@ -35,8 +35,8 @@ theorem iface (fuel0 : Nat) (hop : OperandSpec Op Follow fuel0) : Iface (SeesPT 
     intro s k v ts ⟨toks, hs, hd⟩
     cases hd with
     | tk _ _ _ _ toks' hd' =>
-      obtain ⟨s', i, hp, hs', _, hidx⟩ := peek_spec s k v toks' hs
-      exact ⟨s', i, hp, _, hs', by rw [hidx]; exact .tk _ _ _ _ _ hd'⟩
+      obtain ⟨s', hp, hs', _, hidx⟩ := peek_spec s k v toks' hs
+      exact ⟨s', s.idx, hp, _, hs', by rw [hidx]; exact .tk _ _ _ _ _ hd'⟩
   peek_nil := by
     intro s ⟨toks, hs, hd⟩
     cases hd with
@@ -47,8 +47,8 @@ theorem iface (fuel0 : Nat) (hop : OperandSpec Op Follow fuel0) : Iface (SeesPT 
     intro s k v ts ⟨toks, hs, hd⟩
     cases hd with
     | tk _ _ _ _ toks' hd' =>
-      obtain ⟨s', i, hp, hs', _, hidx⟩ := advance_spec s k v toks' hs
-      exact ⟨s', i, hp, _, hs', by rw [hidx]; exact hd'⟩
+      obtain ⟨s', hp, hs', _, hidx⟩ := advance_spec s k v toks' hs
+      exact ⟨s', s.idx, hp, _, hs', by rw [hidx]; exact hd'⟩
   operand := by
     intro fuel s a ts hf ⟨toks, hs, hd⟩
     cases hd with
